@@ -8,6 +8,9 @@ Part 2: `find_allowed_size`.  Part 3: the linear recursion of the von Kármán v
 import Mathlib.Analysis.Matrix.Normed
 import Mathlib.Data.Matrix.ColumnRowPartitioned
 import Mathlib.Data.Matrix.Block
+import Mathlib.LinearAlgebra.Matrix.Notation
+import Mathlib.Tactic.FinCases
+import Mathlib.Tactic.Linarith
 import Mathlib.Topology.Instances.Matrix
 import AoVerif.Lemmas.Lyapunov
 import AoVerif.Lemmas.InfScreenReal
@@ -509,8 +512,8 @@ theorem frobenius_norm_transpose_pow (F : Matrix Z Z ℝ) (k : ℕ) : ‖Fᵀ ^ 
   rw [← Matrix.transpose_pow, Matrix.frobenius_norm_transpose]
 
 open Filter Topology in
-/-- **unique_and_convergent**: under the contraction hypothesis `‖F^k‖_F ≤ c < 1` (a numerical witness per
-configuration, recorded by the check) a fixed point `S` of `P ↦ F P Fᵀ + Q` is the ONLY fixed point, the
+/-- **unique_and_convergent**: under the contraction HYPOTHESIS `hk hc hF : ‖F^k‖_F ≤ c < 1` (not proved: a numerical witness per
+configuration, computed and recorded by the check) a fixed point `S` of `P ↦ F P Fᵀ + Q` is the ONLY fixed point, the
 recursion started from ANY `P₀` converges to it, and the distance decays geometrically -/
 theorem unique_and_convergent (F Q S : Matrix Z Z ℝ) (hfix : F * S * Fᵀ + Q = S) {k : ℕ} (hk : 0 < k) {c : ℝ}
     (hc : c < 1) (hF : ‖F ^ k‖ ≤ c) :
@@ -526,7 +529,8 @@ theorem unique_and_convergent (F Q S : Matrix Z Z ℝ) (hfix : F * S * Fᵀ + Q 
 open Filter Topology in
 /-- the stability clause of the property, assembled: C04 identities + block stationarity + contraction witness ⇒
 the theoretical covariance is the unique stationary covariance of the row recursion and is reached from any
-starting covariance -/
+starting covariance.  The contraction witness `hk hc hF` is a HYPOTHESIS (numerical, per configuration), as are the two C04
+identities `hA hB`; the statement is about the recursion STATE `Z` (the stencil rows), not about the whole exposed screen -/
 theorem vk_stable (T : Matrix Z (X ⊕ Z) ℝ) (A : Matrix X Z ℝ) (B : Matrix X X ℝ) (Sxx : Matrix X X ℝ)
     (Sxz : Matrix X Z ℝ) (Szx : Matrix Z X ℝ) (Szz : Matrix Z Z ℝ) (hzz : Szzᵀ = Szz) (hzx : Szxᵀ = Sxz)
     (hA : A * Szz = Sxz) (hB : B * Bᵀ = Sxx - A * Szx)
@@ -542,7 +546,8 @@ theorem vk_stable (T : Matrix Z (X ⊕ Z) ℝ) (A : Matrix X Z ℝ) (B : Matrix 
 
 open Filter Topology in
 /-- the contraction hypothesis cannot be dropped: the scalar recursion `P ↦ 2·P·2` has the fixed point `0` but started from `1`
-it runs off to infinity (this is what happens to the ill-conditioned configurations of the open finding) -/
+it runs off to infinity (this is what happened to the ill-conditioned configurations of the finding `stability:vk:L0/pixel>2e4`
+on the pinned tree, fixed by 4518b2c) -/
 theorem contraction_needed :
     ∃ F F' Q Ps P0 : ℝ, F * Ps * F' + Q = Ps ∧ ¬ Tendsto (Lyapunov.iter F F' Q P0) atTop (𝓝 Ps) := by
   refine ⟨2, 2, 0, 0, 1, by norm_num, ?_⟩
@@ -610,8 +615,8 @@ theorem pow_mulVec_eigen (F : Matrix Z Z ℝ) (v : Z → ℝ) (lam : ℝ) (hv : 
   | succ t ih => rw [pow_succ, ← mulVec_mulVec, hv, mulVec_smul, ih, smul_smul, pow_succ, mul_comm]
 
 open Filter Topology in
-/-- converse of the contraction hypothesis: if the companion matrix has a real eigenvalue of modulus ≥ 1 (what the check finds for
-the configurations of the open finding), the covariance recursion started at `S + v vᵀ` never returns to the fixed point `S` -/
+/-- converse of the contraction hypothesis: if the companion matrix has a real eigenvalue of modulus ≥ 1 (what the check found on
+the pinned tree for the configurations of the finding `stability:vk:L0/pixel>2e4`, fixed by 4518b2c), the covariance recursion started at `S + v vᵀ` never returns to the fixed point `S` -/
 theorem unstable_diverges (F Q S : Matrix Z Z ℝ) (hfix : F * S * Fᵀ + Q = S) (v : Z → ℝ) (lam : ℝ)
     (hv : F *ᵥ v = lam • v) (hne : v ≠ 0) (hlam : 1 ≤ |lam|) :
     ¬ Tendsto (Lyapunov.iter F Fᵀ Q (S + vecMulVec v v)) atTop (𝓝 S) := by
@@ -652,14 +657,16 @@ theorem friedKernel_rowOK (c : Cfg) (A B : List (List ℝ)) (coords : List (ℕ 
   simp only [friedKernel, e, Option.getD_some, hl]
 
 open Filter Topology in
-/-- whatever screen the recursion is started from, its influence `F^t z₀` on later stencil states dies out -/
+/-- whatever screen the recursion is started from, its influence `F^t z₀` on later stencil states dies out (given the contraction
+witness `hk hc hF`, a hypothesis) -/
 theorem start_forgotten (F : Matrix Z Z ℝ) {k : ℕ} (hk : 0 < k) {c : ℝ} (hc : c < 1) (hF : ‖F ^ k‖ ≤ c) :
     Tendsto (fun t : ℕ => F ^ t) atTop (𝓝 0) :=
   Lyapunov.tendsto_pow_zero F hk hc hF
 
 open Filter Topology in
 /-- the stability clause for the concrete model: the matrices are those denoted by the lists `A_mat`, `B_mat` the state
-machine runs on (`vk_state_recursion`), the selection is `vkShift` -/
+machine runs on (`vk_state_recursion`), the selection is `vkShift`.  Hypotheses, not proved: the C04 identities `hA hB`, block
+stationarity `hstat` (discharged in `vk_stable_from_cov`) and the contraction witness `hk hc hF`.  State = first `nc+1` rows. -/
 theorem vk_stable_concrete (n nc : ℕ) (A B : List (List ℝ)) (Sxx : Matrix (Fin n) (Fin n) ℝ)
     (Sxz : Matrix (Fin n) (Fin (nc + 1) × Fin n) ℝ) (Szx : Matrix (Fin (nc + 1) × Fin n) (Fin n) ℝ)
     (Szz : Matrix (Fin (nc + 1) × Fin n) (Fin (nc + 1) × Fin n) ℝ) (hzz : Szzᵀ = Szz) (hzx : Szxᵀ = Sxz)
@@ -776,7 +783,9 @@ theorem covZX_transpose (κ : ℤ → ℤ → ℝ) (hκ : ∀ a b, κ (-a) (-b) 
 
 open Filter Topology in
 /-- **the stability clause with block stationarity and symmetry discharged**: for covariance blocks built from an even function
-of the displacement, the two C04 identities and a contraction witness suffice -/
+of the displacement, the two C04 identities (`hA hB`, hypotheses) and a contraction witness (`hk hc hF`, a hypothesis: numerical,
+per configuration) suffice.  SCOPE: `covZZ κ nc n` is the covariance of the recursion STATE — the first `nc+1 = n_columns` rows of the
+working array.  Nothing is said about rows `n_columns … N−1` of the exposed screen; for those see `exposed_model_cov_not_fixed`. -/
 theorem vk_stable_from_cov (κ : ℤ → ℤ → ℝ) (hκ : ∀ a b, κ (-a) (-b) = κ a b) (n nc : ℕ) (A B : List (List ℝ))
     (hA : pairMat nc n A * covZZ κ nc n = covXZ κ nc n)
     (hB : toMat n n B * (toMat n n B)ᵀ = covXX κ n - pairMat nc n A * covZX κ nc n)
@@ -789,6 +798,61 @@ theorem vk_stable_from_cov (κ : ℤ → ℤ → ℝ) (hκ : ∀ a b, κ (-a) (-
   vk_stable_concrete n nc A B (covXX κ n) (covXZ κ nc n) (covZX κ nc n) (covZZ κ nc n) (covZZ_symm κ hκ nc n)
     (covZX_transpose κ hκ nc n) hA hB (vk_block_stationary κ nc n) hk hc hF
 
+/-! ### Scope of the stability clause: the recursion STATE, not the whole exposed screen
+
+Everything above (`vk_is_stationary` … `vk_stable_from_cov`) is about the state `Z` = the first `n_columns` rows of the working
+array — all the recursion ever reads.  The exposed screen also shows the older rows, which are former states shifted down.  The
+smallest instance shows that for THOSE the theoretical covariance is in general not stationary, even when `A` and `B` satisfy the
+two C04 identities exactly: a screen one pixel wide with `n_columns = 1` that keeps three rows,
+`row₀' = a·row₀ + b·g`, `row₁' = row₀`, `row₂' = row₁`  (`F`, `Q = G Gᵀ` below; `a·c₀ = c₁`, `a c₀ a + b² = c₀` are the identities for
+the model covariance `c₀, c₁, c₂` at row lags 0, 1, 2). -/
+
+/-- the stationary covariance of the three exposed rows: lags 0 and 1 are the model's, lag 2 is `a·c₁ = c₁²/c₀` -/
+theorem exposed_fixed_point (c0 c1 a q : ℝ) (hA : a * c0 = c1) (hq : a * c0 * a + q = c0) :
+    let F : Matrix (Fin 3) (Fin 3) ℝ := !![a, 0, 0; 1, 0, 0; 0, 1, 0]
+    let Q : Matrix (Fin 3) (Fin 3) ℝ := !![q, 0, 0; 0, 0, 0; 0, 0, 0]
+    let P : Matrix (Fin 3) (Fin 3) ℝ := !![c0, c1, a * c1; c1, c0, c1; a * c1, c1, c0]
+    F * P * Fᵀ + Q = P := by
+  intro F Q P
+  ext i j
+  simp only [Matrix.add_apply, Matrix.mul_apply, Matrix.transpose_apply, Fin.sum_univ_three]
+  fin_cases i <;> fin_cases j <;> simp [F, Q, P] <;> linarith
+
+/-- **the theoretical covariance of the EXPOSED rows is not stationary** unless `c₂ c₀ = c₁²` (an exponential covariance, which the
+von Kármán one is not): the stability clause cannot be extended from the state to the whole exposed screen -/
+theorem exposed_model_cov_not_fixed (c0 c1 c2 a q : ℝ) (hA : a * c0 = c1) (h2 : c2 * c0 ≠ c1 * c1) :
+    let F : Matrix (Fin 3) (Fin 3) ℝ := !![a, 0, 0; 1, 0, 0; 0, 1, 0]
+    let Q : Matrix (Fin 3) (Fin 3) ℝ := !![q, 0, 0; 0, 0, 0; 0, 0, 0]
+    let S : Matrix (Fin 3) (Fin 3) ℝ := !![c0, c1, c2; c1, c0, c1; c2, c1, c0]
+    F * S * Fᵀ + Q ≠ S := by
+  intro F Q S h
+  have h02 := congrFun (congrFun h 0) 2
+  simp only [Matrix.add_apply, Matrix.mul_apply, Matrix.transpose_apply, Fin.sum_univ_three] at h02
+  simp [F, Q, S] at h02
+  apply h2
+  rw [← h02, ← hA]; ring
+
+open Filter Topology in
+/-- … and under a contraction witness (hypothesis, as everywhere) the covariance of the exposed rows converges, from any start,
+to the matrix of `exposed_fixed_point`, whose lag-2 entry is `a·c₁` and not the model's `c₂` -/
+theorem exposed_stationary_limit (c0 c1 c2 a q : ℝ) (hA : a * c0 = c1) (hq : a * c0 * a + q = c0) (h2 : c2 * c0 ≠ c1 * c1)
+    {k : ℕ} (hk : 0 < k) {c : ℝ} (hc : c < 1)
+    (hF : ‖(!![a, 0, 0; 1, 0, 0; 0, 1, 0] : Matrix (Fin 3) (Fin 3) ℝ) ^ k‖ ≤ c) :
+    let F : Matrix (Fin 3) (Fin 3) ℝ := !![a, 0, 0; 1, 0, 0; 0, 1, 0]
+    let Q : Matrix (Fin 3) (Fin 3) ℝ := !![q, 0, 0; 0, 0, 0; 0, 0, 0]
+    let P : Matrix (Fin 3) (Fin 3) ℝ := !![c0, c1, a * c1; c1, c0, c1; a * c1, c1, c0]
+    (∀ P0, Tendsto (Lyapunov.iter F Fᵀ Q P0) atTop (𝓝 P)) ∧ P 0 0 = c0 ∧ P 0 1 = c1 ∧ P 0 2 ≠ c2 := by
+  intro F Q P
+  refine ⟨(unique_and_convergent F Q P (exposed_fixed_point c0 c1 a q hA hq) hk hc hF).2.1, by simp [P], by simp [P], ?_⟩
+  intro h
+  simp [P] at h
+  apply h2
+  rw [← h, ← hA]; ring
+
+/-- non-vacuity of the hypotheses of the three theorems above (`c = 1, 1/2, 1/3`: `a = 1/2`, `b² = 3/4`) -/
+example : ∃ c0 c1 c2 a q : ℝ, a * c0 = c1 ∧ a * c0 * a + q = c0 ∧ c2 * c0 ≠ c1 * c1 ∧ 0 ≤ q :=
+  ⟨1, 1 / 2, 1 / 3, 1 / 2, 3 / 4, by norm_num, by norm_num, by norm_num, by norm_num⟩
+
 end stability
 
 /-
@@ -796,12 +860,20 @@ NOT PROVED (stated here, listed in the evidence file under `assumptions`, evalua
 
  * finite_ieee : for binary64 payloads no entry of the array is ever ±inf/NaN.  `entries_inv` reduces it to "the row
    kernel maps finite arrays and finite draws to finite rows", i.e. no overflow in `A·Z + B·b`; for the stable
-   configurations this is a statement about IEEE arithmetic and the tails of the normal generator; for the
-   configurations of the open finding (below) it is FALSE.
+   configurations this is a statement about IEEE arithmetic and the tails of the normal generator; on the
+   pinned tree (float32 covariance) it was FALSE for outer scales beyond ≈ 2·10⁴ pixels (finding `stability:vk:L0/pixel>2e4`,
+   fixed by 4518b2c); the check keeps replaying that configuration and adds outer scales up to 10⁷ pixels.
  * contraction_holds : ∀ configurations for which construction succeeds, ∃ k c, ‖companionF (vkShift nc n) A ^ k‖_F ≤ c < 1.
    This is a numerical fact about the matrices SciPy returns; the check computes a witness (k, ‖F^k‖_F) per
-   configuration.  It is FALSE on the pinned tree for outer scales beyond ≈ 2·10⁴ pixels (open finding
-   `stability:vk:L0/pixel>2e4`; `unstable_diverges` + the recorded real eigenvalue ≥ 1 show non-convergence there).
+   configuration.  It was false on the pinned tree for outer scales beyond ≈ 2·10⁴ pixels (finding
+   `stability:vk:L0/pixel>2e4`, float32 covariance; fixed by 4518b2c — `unstable_diverges` + a real eigenvalue ≥ 1 showed
+   non-convergence there); on the repaired tree a witness is found for every configuration the check generates.
+   EVERY stability theorem above (`unique_and_convergent`, `vk_stable`, `vk_stable_concrete`, `vk_stable_from_cov`,
+   `start_forgotten`, `exposed_stationary_limit`) carries this witness as a HYPOTHESIS (`hk hc hF`).
+ * exposed_screen : the stability clause is proved for the recursion STATE (first n_columns rows) only.  For the older rows of
+   the exposed N×N screen the theoretical covariance is in general NOT stationary (`exposed_model_cov_not_fixed`); the check
+   computes the actual stationary covariance of the whole working array per run: it differs from the model on the real code
+   (known finding `stationary:vk:exposed-rows-beyond-stencil`).
  * c04_identities : A·Σzz = Σxz and B·Bᵀ = Σxx − A·Σzx for the matrices the constructor computes (Cholesky solve and SVD
    are external kernels; this is property C04).  Their joint consequence F·S·Fᵀ + G·Gᵀ = S is checked numerically.
  * covariance_bridge : Cov(F z + G b) = F·Cov(z)·Fᵀ + G·Gᵀ for unit white noise b independent of z (DESIGN §3.4).
